@@ -6,6 +6,19 @@ import os
 ROOT = os.path.dirname(os.path.dirname(os.path.abspath(__file__)))
 
 CLAIMED = {
+    "C08": dict(
+        category="model_checking",
+        technique="TLA+ schema-driven decoder (Schema.tla over CompilerSchema.tla generated from slice/Compiler/*.slice) used as "
+                  "a trace specification: the bytes captured on the stdin of fake generators run by the real binary are "
+                  "decoded by TLC and compared with Convert(AST seen through the library API)",
+        text="Programs come from the specification's generators (MC_Syntax simulate, MC_DocComment, well-formed MC_Rules items); "
+             "for source / reference splits and argument lists the binary runs with two capturing generators; Trace_Schema "
+             "decodes each captured stream field by field (bit sequences, tag end markers, variants, strings, sizes), requires "
+             "complete consumption incl. the arguments, Norm(decoded) = Convert(files) incl. per-parameter and per-return "
+             "documentation, numeric ids pointing back to anonymous symbols, named ids / bases / resolved links existing.",
+        note="Variant framing follows the implementation (no second source offline). Splits are sampled (2 per program quick, 4 "
+             "thorough) beyond two files.",
+        design_ref="5 (C08), 4 (Schema)"),
     "C16": dict(
         category="model_checking",
         technique="TLA+ reference dedent (character-counted common indentation over contentful lines) vs operational "
